@@ -5,4 +5,5 @@ OUT = 'StateStorage, PlannerDataStorage, PlannerData graphs (boost::serializatio
 ASSUMPTIONS = []
 def queries(tier):
     return [cs.so2('roundtrip', tier, bound='every 64-bit pattern'), cs.rv('roundtrip', tier, 1, bound='dim 1, every bit pattern', unwind=12),
-            cs.rv('roundtrip', tier, 3, bound='dim 3, every bit pattern', unwind=30), cs.misc('misc_roundtrip', tier, bound='every bit pattern')]
+            cs.rv('roundtrip', tier, 3, bound='dim 3, every bit pattern', unwind=30), cs.misc('misc_roundtrip', tier, bound='every bit pattern'),
+            cs.compound('copy_serialize', tier, bound='3 stub components of serialization lengths 1,2,3')]
